@@ -21,10 +21,10 @@ RULE = ('batches of seeded random points per class: exact poles/equator, norther
         'distinct = distinct points')
 ASSUMPTIONS = ['closed-form WGS-84 formulas re-typed from the standard; constants shared by value',
                'first-order claims decided by displacement ladders (1 km..1 m), residual <= K d^2 (1+tan^2 lat)/R']
-REQUIRED_OBS = ['ecef_closed_form', 'roundtrip_ecef', 'roundtrip_lla', 'frame_partials',
+REQUIRED_OBS = ['returned_arrays_overwritten', 'integer_forms_compared', 'ecef_closed_form', 'roundtrip_ecef', 'roundtrip_lla', 'frame_partials',
                 'first_order_ladder', 'curvature_ladder', 'gravity_identities', 'parity',
                 'scalar_vs_vector', 'compiled_gravity', 'mp_points']
-REQUIRED_CLASSES = {'all': ['special', 'north', 'south', 'seam', 'high_alt', 'neg_alt', 'scalar']}
+REQUIRED_CLASSES = {'all': ['special', 'north', 'south', 'seam', 'high_alt', 'neg_alt', 'scalar', 'whole_numbers']}
 EPS = np.finfo(float).eps
 PTS = {'quick': 1500, 'thorough': 20000}
 
@@ -66,12 +66,12 @@ def points(case):
 
 
 def cases(seed, tier):
-    classes = ['special', 'north', 'south', 'seam', 'high_alt', 'neg_alt', 'scalar']
+    classes = ['special', 'north', 'south', 'seam', 'high_alt', 'neg_alt', 'scalar', 'whole_numbers']
     nb = 3 if tier == 'quick' else 12
     out = []
     for k in range(nb):
         for i, c in enumerate(classes):
-            n = PTS[tier] if c != 'scalar' else (150 if tier == 'quick' else 1500)
+            n = PTS[tier] if c not in ('scalar', 'whole_numbers') else (150 if tier == 'quick' else 1500)
             out.append(dict(seed=int(seed) * 7919 + 101 * k + i, cls=c, n=n,
                             cost=n if c != 'scalar' else 20 * n))
     return out
@@ -82,7 +82,77 @@ def ulps(a, b, scale=None):
     b = np.asarray(b, float)
     s = np.maximum(np.abs(a), np.abs(b)) if scale is None else scale
     s = np.where(s == 0, 1.0, s)
-    return np.abs(a - b) / (EPS * s)
+    d = np.abs(a - b) / (EPS * s)
+    return np.where(np.isnan(d), np.inf, d)          # a NaN never passes a comparison silently
+
+
+def poison_pass(lat, lon, alt, bump):
+    """Call history: every function is first called on points of this case (single and stacked) and the arrays it hands back are
+    overwritten by the caller; everything below then judges the calls that follow.  A function that hands out an array it keeps
+    (memo of the last / of frequent arguments) answers the later calls with the caller's scribbles."""
+    from pyins import earth, transform
+    for sl in (slice(0, 1), slice(0, min(len(lat), 64))):
+        la, lo, al = lat[sl], lon[sl], alt[sl]
+        forms = [(la, lo, al)] if sl.stop > 1 else [(la, lo, al), (float(la[0]), float(lo[0]), float(al[0]))]
+        for a, b, c in forms:
+            L = np.column_stack([a, b, c]) if np.ndim(a) else np.array([a, b, c])
+            res = [earth.principal_radii(a, c), earth.gravity(a, c), earth.gravity_n(a, c), earth.gravitation_ecef(L), earth.curvature_matrix(a, c),
+                   earth.rate_n(a), transform.lla_to_ecef(L), transform.mat_en_from_ll(a, b), transform.lla_to_ned(L, L if L.ndim == 1 else L[0]),
+                   transform.perturb_lla(L, np.ones_like(L)), transform.compute_lla_difference(L, L)]
+            res.append(transform.ecef_to_lla(np.array(res[6], dtype=float)))
+            for r in res:
+                for x in (r if isinstance(r, tuple) else (r,)):
+                    if isinstance(x, np.ndarray) and x.flags.writeable and x.size:
+                        x[...] = 12345.678
+                        bump('returned_arrays_overwritten')
+
+
+def run_whole_numbers(case, lat, lon, alt, out, obs, bump, fail):
+    """Whole-degree / whole-metre points handed over as integers (int64 arrays, lists of Python ints, single int triples): the same
+    numbers as floats must give the same geometry, and the ECEF <-> geodetic round trip must close on them as on any other point."""
+    from pyins import earth, transform
+    rng = np.random.Generator(np.random.PCG64(case['seed'] + 5))
+    lat, lon, alt = np.rint(lat), np.rint(lon), np.rint(alt)
+    lla = np.column_stack([lat, lon, alt])
+    ecef = np.rint(transform.lla_to_ecef(np.column_stack([lat + rng.uniform(-0.4, 0.4, len(lat)), lon + rng.uniform(-0.4, 0.4, len(lat)), alt])))
+    dr = np.rint(rng.standard_normal(lla.shape) * 50)
+    lla2 = lla + np.rint(rng.standard_normal(lla.shape))
+    lla2[:, 0] = np.clip(lla2[:, 0], -90, 90)
+    I = lambda a: np.asarray(a).astype(np.int64)        # noqa: E731
+    calls = [('principal_radii', earth.principal_radii, (lat, alt)), ('gravity', earth.gravity, (lat, alt)), ('gravity_n', earth.gravity_n, (lat, alt)),
+             ('gravitation_ecef', earth.gravitation_ecef, (lla,)), ('curvature_matrix', earth.curvature_matrix, (lat, alt)), ('rate_n', earth.rate_n, (lat,)),
+             ('lla_to_ecef', transform.lla_to_ecef, (lla,)), ('ecef_to_lla', transform.ecef_to_lla, (ecef,)), ('lla_to_ned', transform.lla_to_ned, (lla, lla[0])),
+             ('perturb_lla', transform.perturb_lla, (lla, dr)), ('compute_lla_difference', transform.compute_lla_difference, (lla, lla2)),
+             ('mat_en_from_ll', transform.mat_en_from_ll, (lat, lon))]
+    for name, f, args in calls:
+        ref = f(*[np.array(a, dtype=float) for a in args])
+        forms = {'int64 array': [I(a) for a in args], 'list of ints': [I(a).tolist() for a in args],
+                 'single int row': [I(a)[3].tolist() if name != 'lla_to_ned' or k == 0 else I(a).tolist() for k, a in enumerate(args)]}
+        for form, fa in forms.items():
+            try:
+                got = f(*fa)
+            except Exception as e:
+                fail('integer_form', f'{name}: {form} raised {type(e).__name__}: {e}')
+                continue
+            bump('integer_forms_compared')
+            r = ref
+            if form == 'single int row':
+                r = tuple(x[3] for x in ref) if isinstance(ref, tuple) else ref[3]
+                if name == 'lla_to_ned':
+                    r = f(np.array(args[0][3], dtype=float), np.array(args[1], dtype=float))
+            ga = np.hstack([np.ravel(x) for x in (got if isinstance(got, tuple) else (got,))]).astype(float)
+            ra = np.hstack([np.ravel(x) for x in (r if isinstance(r, tuple) else (r,))]).astype(float)
+            if ga.shape != ra.shape or (np.abs(ga - ra) > 8 * EPS * np.maximum(np.abs(ra), np.abs(ra).max() * 1e-3 + 1e-300)).any():
+                bad = int(np.argmax(np.abs(ga - ra))) if ga.shape == ra.shape else -1
+                fail('integer_form', f'{name}: whole numbers passed as {form} give {ga[bad] if bad >= 0 else ga.shape} where the same numbers as floats give '
+                     f'{ra[bad] if bad >= 0 else ra.shape}')
+    # round trip from whole-metre ECEF points
+    back = transform.lla_to_ecef(transform.ecef_to_lla(I(ecef)))
+    bump('roundtrip_ecef', len(ecef))
+    e = np.abs(back - ecef).max()
+    if e > 1e-6:
+        fail('roundtrip_ecef', f'whole-metre ECEF points (integer-typed) do not survive ecef_to_lla -> lla_to_ecef: {e:.3e} m')
+    return dict(violations=out, obs=obs, nontrivial=True, evals=len(lat), nontrivial_count=len(lat), sample=dict(cls='whole_numbers', n=len(lat)))
 
 
 def run_case(case):
@@ -100,6 +170,10 @@ def run_case(case):
     lat, lon, alt = points(case)
     n = len(lat)
     lla = np.column_stack([lat, lon, alt])
+    poison_pass(lat, lon, alt, bump)
+
+    if case['cls'] == 'whole_numbers':
+        return run_whole_numbers(case, lat, lon, alt, out, obs, bump, fail)
 
     if case['cls'] == 'scalar':
         # scalar vs vectorised forms of every function (<= 4 ulp of the natural scale)
